@@ -69,6 +69,12 @@ func errorCodeOf(f *Func, e ast.Expr) string {
 		if id.Name == "nil" {
 			return "nil"
 		}
+		// a local holding the error: the assignment that reaches this use
+		if def := f.reachingDef(f.Graph(), id); def != nil {
+			if _, again := ast.Unparen(def).(*ast.Ident); !again {
+				return errorCodeOf(f, def)
+			}
+		}
 		return "var:" + types.TypeString(f.TypeOf(id), func(p *types.Package) string { return p.Name() })
 	}
 	if ce, ok := e.(*ast.CallExpr); ok {
@@ -527,8 +533,12 @@ func rulesC06(c *Ctx) {
 				ok := inUpdateState(w.f) && wi != nil && wd != nil && hasAtom(guards, func(a Atom) bool { return a.Val && w.f.ObjOf(a.E) == wi }) && hasAtom(guards, func(a Atom) bool { return !a.Val && w.f.ObjOf(a.E) == wd })
 				// the same two facts tested on the state itself, in the closure that stores
 				if !ok && inUpdateState(w.f) {
-					ok = hasAtom(guards, func(a Atom) bool { return AtomSaysNil(a, false, func(e ast.Expr) bool { return w.f.IsField(e, initParamsF) }) }) &&
-						hasAtom(guards, func(a Atom) bool { return AtomSaysNil(a, true, func(e ast.Expr) bool { return w.f.IsField(e, initdParamsF) }) })
+					ok = hasAtom(guards, func(a Atom) bool {
+						return AtomSaysNil(a, false, func(e ast.Expr) bool { return w.f.IsField(e, initParamsF) })
+					}) &&
+						hasAtom(guards, func(a Atom) bool {
+							return AtomSaysNil(a, true, func(e ast.Expr) bool { return w.f.IsField(e, initdParamsF) })
+						})
 				}
 				c.Check(ok, key, w.f, w.n, "initialized stores only under wasInit && !wasInitd (guards: %s)", atomsString(guards))
 			case "(*StreamableHTTPHandler).ephemeralConnectOpts":
